@@ -98,7 +98,7 @@ def real_solver_search(rep, rng, n):
     for i in range(n):
         kinds = ["feasible", "infeasible", "bounds", "lp_infeasible", "bound_only", "lp_zero_row", "nlp_zero_row", "lp_eq_infeasible",
                  "bound_and_looser_row", "objective_swap", "lp_strided_views", "upper_bound_zero", "diverging", "one_expression_two_senses",
-                 "lp_box_only_zero_cost", "lp_ge_row_resolve", "param_in_constraint_update"]
+                 "lp_box_only_zero_cost", "lp_ge_row_resolve", "param_in_constraint_update", "lp_bound_edit_resolve"]
         kind = kinds[i % len(kinds)]
         x = VectorVariable(f"s{i}", rng.randint(1, 3), lb=rng.choice([None, 0, -1]), ub=rng.choice([None, 2, 5]))
         P = Problem()
@@ -186,6 +186,13 @@ def real_solver_search(rep, rng, n):
             c_user = np.array([1.0, 2.0, 1.5])
             P.minimize(c_user @ xg).subject_to(a_user @ xg >= 6.0)
             special = ("ge_row", xg, a_ref, 6.0)
+        elif kind == "lp_bound_edit_resolve":
+            # an LP solved, the box of a variable edited (two-sided before and after; tightened, moved, or made empty against a row),
+            # and the same problem solved again: OPTIMAL means inside the box AS IT STANDS
+            for v in x:
+                v.lb, v.ub = 0.0, 10.0
+            P.maximize(x.sum() * 1.0).subject_to(x.sum() <= 25)
+            special = ("bound_edit", None, None, None)
         elif kind == "param_in_constraint_update":
             # a Parameter inside a compound sub-expression of a constraint, updated between two solves of the same problem
             from optyx import Parameter as _Pp
@@ -220,6 +227,8 @@ def real_solver_search(rep, rng, n):
                         P.minimize(orig_obj)
                     if kind == "param_in_constraint_update":
                         special[1].set(10.0)
+                    if kind == "lp_bound_edit_resolve":
+                        x[0].lb, x[0].ub = 0.0, 10.0
                     s = P.solve(method=m)
                     if kind == "lp_ge_row_resolve":
                         P.subject_to(special[1][0] <= 9.0)        # an edit that drops the LP cache: the rows are extracted again
@@ -227,6 +236,9 @@ def real_solver_search(rep, rng, n):
                     if kind == "param_in_constraint_update":
                         special[1].set(5.0)                        # x.sum() <= 4 from now on
                         s = P.solve(method=m)
+                    if kind == "lp_bound_edit_resolve":
+                        x[0].lb, x[0].ub = [(1.0, 3.0), (0.0, 2.5), (4.0, 6.0), (0.5, 1.5)][(i // len(kinds)) % 4]
+                        s = P.solve(method=m)                      # (the original box is put back before the next method's first solve)
                     if kind == "objective_swap":
                         P.minimize(swap_to)
                         s = P.solve(method=m)          # the solve that matters: after the replacement
@@ -311,7 +323,7 @@ def run(rep: vk.Report):
         rep.violation({"kind": "correspondence", "obligation": "wrapper outcome = model post_minimize (SolveWrap.v)",
                        "case": cases.terms[i][:4000], "meta": meta, "model": model,
                        "witness": meta if concrete else None}, concrete=concrete)
-    tried, found = real_solver_search(rep, rng, 68 if rep.tier == "quick" else 680)
+    tried, found = real_solver_search(rep, rng, 72 if rep.tier == "quick" else 720)
     cov = rep.coverage
     cov["evaluations"] = len(cases.terms) + tried
     cov["distinct_nontrivial"] = cases.nontrivial
